@@ -173,7 +173,24 @@ def c09(cx):
                 what="report loop single-stepped over evolving energy files (append, rewrite, duplicate with other value, reorder, drop) with restarts")
 
 
-PLANS = {"C01": c01, "C02": c02, "C03": c03, "C04": c04, "C06": c06, "C07": c07, "C09": c09, "C16": c16, "C18": c18, "C19": c19, "C20": c20}
+def c10(cx):
+    cx.assumptions += ["signatures abstract: harness-made signatures from its signing record; the genuine server signature of each fetched reply is "
+                       "registered after one check with the verifier, tampered copies are then judged from the record",
+                       "the genuine bytes are fetched by the harness and replayed to the client's parser through a harness TCP endpoint "
+                       "(the direct client<->server exchange is exercised by C08)"]
+    q = cx.tier == QUICK
+    cx.mc("MC_SyncReply", "MC_SyncReply.cfg", {"CDefects": "{}"}, workers=4,
+          note="every abstract reply over lengths x device keys x 7 migration variants x 0..2 server entries x signers x freshness: "
+               "the operational checks accept exactly the authentic replies")
+    cx.mc("MC_Rotate", "MC_SyncBits.cfg", {"MaxNow": 8, "MaxReports": 1 if q else 2},
+          note="SyncBitsOK in every state of the rotation model: bit i <=> record held for offset+i, banned ids refused")
+    r = cx.drv_ok("syncparse")
+    cx.validate("Trace_Server", "Trace_C10.cfg", r["trace"], what="real replies decoded with the reference decoder vs. the server model")
+    cx.validate("Trace_Sync", "Trace_Sync.cfg", r["trace"] + ".parse",
+                what="real client parser on genuine replies, every single-bit flip, truncations, extensions, re-signings, rogue-signed variants")
+
+
+PLANS = {"C01": c01, "C02": c02, "C03": c03, "C04": c04, "C06": c06, "C07": c07, "C09": c09, "C10": c10, "C16": c16, "C18": c18, "C19": c19, "C20": c20}
 
 
 def replay(cx, path):
